@@ -436,6 +436,24 @@ impl<T: RequestHandler> Server<T> {
     }
 }
 
+#[cfg(feature = "verif-hooks")]
+impl<T: RequestHandler> Server<T> {
+    /// Verification hook: hand one raw message to the request entry point the UDP and TCP socket
+    /// loops call (`ServerContext::handle_raw_request`), with the caller's response handle.
+    ///
+    /// Only compiled with the non-default `verif-hooks` feature.
+    pub async fn verif_handle_raw_request(
+        &self,
+        message: SerialMessage,
+        protocol: Protocol,
+        response_handler: BufDnsStreamHandle,
+    ) {
+        self.context
+            .handle_raw_request(message, protocol, response_handler)
+            .await
+    }
+}
+
 async fn handle_udp(
     socket: net::UdpSocket,
     cx: Arc<ServerContext<impl RequestHandler>>,
